@@ -354,6 +354,18 @@ theorem handler_permissions_enforced (H : Handlers) (srv : Server) (cells : List
     rw [hk]
     simp [hs, h0]
 
+/-- non-vacuity of `declared_read_permitted` / `declared_write_permitted` /
+    `write_property_matches_permission`: a readable, writable 4 byte bound value whose memory
+    exists (`attrStateOk`), no encryption requirement (`SecOk`); a const one refuses the write -/
+example : attrStateOk ([[1, 2, 3, 4]].map List.length) 0 ⟨0x1001, .bound 0 4 true true, default, default⟩ = true ∧
+    secCheck (requiresEnc wHandlerSrv.enc ⟨0x1001, .bound 0 4 true true, default, default⟩) ⟨23, [], false, 0⟩ = none ∧
+    declaresRead (.bound 0 4 true true) = true ∧
+    readAccess Handlers.std wHandlerSrv [[1, 2, 3, 4]] ⟨23, [], false, 0⟩ 0 ⟨0x1001, .bound 0 4 true true, default, default⟩ 5 22
+      = (.err 0x07, []) ∧
+    declaresWrite (.bound 0 4 true false) = false ∧
+    writeAccess Handlers.std wHandlerSrv [[1, 2, 3, 4]] ⟨23, [], false, 0⟩ ⟨0x1001, .bound 0 4 true false, default, default⟩ 0 [9]
+      = (.err 0x03, [[1, 2, 3, 4]], []) := by decide
+
 /-- non-vacuity: G4-like handler value (plain read handler, blob write handler) on an encrypted
     link — a read at offset 0 returns the handler's bytes, at offset 1 Attribute Not Long -/
 example : readAccess Handlers.std wHandlerSrv [[0x30, 0x31]] ⟨23, [], true, 0⟩ 0
